@@ -82,7 +82,8 @@ def run_conn_prop(ctx, prop, scripts, oracle, slice_name, rule, model_ok, attrib
                 ctx.known_hits.append("S13 (NULL+0 pointer arithmetic on close/gap) in %s" % fn)
             continue
         if san_prop:
-            ctx.violation("sanitizer", {"report": kind, "file": fn}, found_input=False, sig=sig)
+            sc = find_san_script(ctx, allsc, kind, fn)
+            ctx.violation("sanitizer", {"report": kind, "file": fn, "script": sc or []}, found_input=bool(sc), sig=sig)
     cov = {"evaluations": nlines, "distinct_nontrivial": len(distinct), "rule": rule, "programs": len(allsc),
            "disagreements_checked": len(disagreements), "calls": ncalls, "rc_distribution": {str(k): v for k, v in sorted(rc_dist.items())},
            "callback_distribution": ev_dist, "final_state_distribution": state_dist, "scripts_nontrivial": nontriv,
@@ -91,6 +92,28 @@ def run_conn_prop(ctx, prop, scripts, oracle, slice_name, rule, model_ok, attrib
     if extra_cov:
         cov.update(extra_cov)
     ctx.cov.update(cov)
+
+
+def find_san_script(ctx, scripts, kind, fn, budget=40):
+    """bisect to one script whose run makes the sanitizer print this report"""
+    import re as _re
+
+    def shows(sub):
+        co, ce, rc = lib.run_c(ctx.corr, [l for sc in sub for l in sc])
+        return any(k == kind and f == fn for k, f in lib.san_reports(ce)) or (rc != 0 and kind.startswith("asan"))
+
+    cur = scripts
+    n = 0
+    while len(cur) > 1 and n < budget:
+        n += 1
+        mid = len(cur) // 2
+        if shows(cur[:mid]):
+            cur = cur[:mid]
+        elif shows(cur[mid:]):
+            cur = cur[mid:]
+        else:
+            return None
+    return cur[0] if cur and shows(cur) else None
 
 
 def shrink_for_oracle(ctx, sc, oracle, attribute, sig, budget=60):
